@@ -193,6 +193,25 @@ class BuiltinsMixin:
         """any()/all() over a generator expression with one `for` and a
         pure element predicate: an index-quantified formula.  The element
         expression is evaluated in spec mode (no exceptions, no effects)."""
+        if isinstance(arg, VRef) and arg.elem is not None and \
+                arg.cls == "list":
+            # any(lst) / all(lst): truthiness of the elements
+            n, elem, conc = self.iter_desc(arg, st, fr)
+            if conc is not None:
+                cs = [self.truth(x, st) for x in conc]
+                if exists:
+                    return VBool(z3.Or(cs) if cs else z3.BoolVal(False))
+                return VBool(z3.And(cs) if cs else z3.BoolVal(True))
+            q = z3.Int(fresh_name("q"))
+            rng = z3.And(0 <= q, q < n)
+            t = self.truth(elem(q), st)
+            # the instance q = 0 is stated explicitly (logically redundant)
+            t0 = self.truth(elem(z3.IntVal(0)), st)
+            if exists:
+                return VBool(z3.Or(z3.And(n > 0, t0),
+                                   z3.Exists([q], z3.And(rng, t))))
+            return VBool(z3.And(z3.Implies(n > 0, t0),
+                                z3.ForAll([q], z3.Implies(rng, t))))
         if not (isinstance(arg, VPy) and isinstance(arg.obj, tuple)
                 and arg.obj[0] == "ast"):
             raise Unsupported("any/all of a non-generator")
